@@ -157,6 +157,13 @@ def strip_generics(name):
     return "".join(out)
 
 
+ITERS = ("iterlit", "iteradapt")
+
+
+class _NoIter(Exception):
+    pass
+
+
 def is_workspace_callee(c):
     k = c.get("res_krate") or c.get("krate")
     return k in WORKSPACE
@@ -235,7 +242,7 @@ class Evaluator:
 
 
 class _State:
-    __slots__ = ("mem", "conds", "memo", "events", "visits", "occ", "blocks", "items")
+    __slots__ = ("mem", "conds", "memo", "events", "visits", "occ", "blocks", "items", "marks")
 
     def __init__(self):
         self.mem = {}
@@ -246,6 +253,7 @@ class _State:
         self.occ = {}
         self.blocks = []
         self.items = []
+        self.marks = {}
 
     def fork(self):
         s = _State()
@@ -257,6 +265,7 @@ class _State:
         s.occ = dict(self.occ)
         s.blocks = list(self.blocks)
         s.items = list(self.items)
+        s.marks = dict(self.marks)
         return s
 
 
@@ -273,6 +282,10 @@ class _Run:
         st = _State()
         for i in range(fn.arg_count):
             st.mem[i + 1] = sym.param(fn.key, i, fn.param_name(i))
+            if i in fn.len_args:
+                # this copy is specialised on a call site that passes a literal list of n elements
+                kind, n = fn.len_args[i]
+                st.mem[i + 1] = mk(kind, (), tuple(sym.field(st.mem[i + 1], "[%d]" % k) for k in range(n)))
         try:
             self.walk(st, 0)
         except TooManyPaths as e:
@@ -554,6 +567,12 @@ class _Run:
                 if nxt is None:
                     self.finish(st, "abort")
                     return
+                if isinstance(nxt, list):
+                    # a call that was evaluated element by element over a known list (iterator adaptors): one
+                    # continuation per outcome of the closures' tests
+                    for (s2, target) in nxt:
+                        self.walk(s2, target)
+                    return
                 bb = nxt
             elif k == "switch":
                 outs = self.do_switch(st, bb, t)
@@ -814,9 +833,19 @@ class _Run:
                         cmap[i] = payload(a)[0]
                     elif i < target_fn.arg_count and tag(a) == "param" and payload(a)[0] == fn.key and payload(a)[1] in getattr(fn, "closure_args", {}):
                         cmap[i] = fn.closure_args[payload(a)[1]]
-                if cmap:
-                    target_fn = self.world.specialise(target_fn, cmap)
+                lmap = {}
+                for i, a in enumerate(args):
+                    if i < target_fn.arg_count and tag(a) in ("array", "vec") and len(kids(a)) <= 4:
+                        ty = target_fn.locals[i + 1]["ty"]
+                        if (ty.startswith("&[") and ty.endswith("]") and ";" not in ty) or ty.startswith("&std::vec::Vec<"):
+                            lmap[i] = (tag(a), len(kids(a)))
+                if cmap or lmap:
+                    target_fn = self.world.specialise(target_fn, cmap, lmap)
                     name = target_fn.pretty
+            if target_fn is None and args and tag(args[0]) in ITERS:
+                forked = self.iter_call(st, bb, t, name, callee, args, raw)
+                if forked is not None:
+                    return forked
             result = self.model(st, callee, name, args, raw, site, occ, target_fn, t)
         ev = Event(fn, bb, t["line"], callee, name, args, raw, result, target_fn, self_ty)
         ev.idx = len(st.events)
@@ -825,6 +854,121 @@ class _Run:
         root, path = self.resolve(st, t["dest"])
         self.write(st, root, path, result)
         return t["target"]
+
+    # -- iteration over lists whose elements are all known --------------------
+    def deep_deref(self, st, v, depth=3):
+        """elements of a literal list as values: shared references inside tuples are read now"""
+        v = self.deref_val(st, v)
+        if depth > 0 and tag(v) in ("tuple", "array"):
+            return mk(tag(v), payload(v), tuple(self.deep_deref(st, x, depth - 1) for x in kids(v)))
+        return v
+
+    def call_closure(self, st, clo, argvals, bb, t):
+        """one call of a closure value with the given arguments, recorded as an event of this body"""
+        ctarget = self.closure_target(clo)
+        if ctarget is None or ctarget.arg_count != 1 + len(argvals):
+            return None
+        site = "%s#%d" % (self.fn.key, bb)
+        occ = st.occ.get(bb, 0)
+        st.occ[bb] = occ + 1
+        args = [clo] + list(argvals)
+        callee = {"name": ctarget.name, "pretty": ctarget.pretty, "trait": None, "args": [], "res_kind": "item",
+                  "res_krate": ctarget.crate, "res_key": ctarget.key, "krate": ctarget.crate}
+        t2 = dict(t)
+        t2["args"] = [{"const": {"ty": ctarget.locals[i + 1]["ty"]}} for i in range(ctarget.arg_count)]
+        result = self.model(st, callee, ctarget.pretty, args, args, site, occ, ctarget, t2)
+        ev = Event(self.fn, bb, t["line"], callee, ctarget.pretty, args, args, result, ctarget, None)
+        ev.idx = len(st.events)
+        st.events.append(ev)
+        st.items.append(("e", ev))
+        return result
+
+    def iter_pull(self, st, it, bb, t):
+        """one step of a (lazy) iterator over a known list: [(state, iterator after the step, item | None)] - one
+        alternative per outcome of the filter closures on the way"""
+        if tag(it) == "iterlit":
+            pos, el = payload(it)[0], kids(it)
+            if pos >= len(el):
+                return [(st, it, None)]
+            return [(st, mk("iterlit", (pos + 1,), el), el[pos])]
+        kind = payload(it)[0]
+        src, clo = kids(it)
+        out = []
+        for (s1, src1, item) in self.iter_pull(st, src, bb, t):
+            it1 = mk("iteradapt", (kind,), (src1, clo))
+            if item is None:
+                out.append((s1, it1, None))
+                continue
+            r = self.call_closure(s1, clo, [item], bb, t)
+            if r is None:
+                raise _NoIter()
+            if kind == "map":
+                out.append((s1, it1, r))
+                continue
+            # filter: keep the item iff the closure answers true
+            atom, pol = self.bool_atom(r)
+            known = sym.boolc(payload(atom)[0] == pol) if tag(atom) == "bool" else None
+            if known is None and s1.memo.get(atom) in (True, False):
+                known = sym.boolc(s1.memo[atom] == pol)
+            if known is not None:
+                if payload(known)[0]:
+                    out.append((s1, it1, item))
+                else:
+                    out.extend(self.iter_pull(s1, it1, bb, t))
+                continue
+            s2 = s1.fork()
+            self.add_cond(s1, (atom, pol), bb_from=None, line=t["line"])
+            out.append((s1, it1, item))
+            self.add_cond(s2, (atom, not pol), bb_from=None, line=t["line"])
+            out.extend(self.iter_pull(s2, it1, bb, t))
+        return out
+
+    def iter_call(self, st, bb, t, name, callee, args, raw):
+        """`next` / `collect` on an iterator over a known list, evaluated element by element.  None: not handled here."""
+        nm = callee["name"]
+        if name not in ("std::iter::Iterator::next", "std::iter::Iterator::collect"):
+            return None
+        if nm == "collect" and not any(str(a).startswith("std::vec::Vec<") for a in callee.get("args", [])):
+            return None
+        snap = st.fork()
+        try:
+            if nm == "next":
+                alts = self.iter_pull(st, args[0], bb, t)
+                outs = []
+                for (s1, it1, item) in alts:
+                    self.store_through(s1, t["args"][0], raw[0], it1)
+                    if item is None:
+                        res = sym.agg("std::option::Option", "None", [], [])
+                    else:
+                        res = sym.agg("std::option::Option", "Some", ["0"], [item])
+                        # iterations of a loop over a known list do not count against the unrolling bound
+                        mark = s1.marks.get(bb)
+                        if mark is not None:
+                            for b in s1.blocks[mark:]:
+                                if s1.visits.get(b, 0) > 0:
+                                    s1.visits[b] -= 1
+                        s1.marks[bb] = len(s1.blocks)
+                    root, path = self.resolve(s1, t["dest"])
+                    self.write(s1, root, path, res)
+                    outs.append((s1, t["target"]))
+                return outs
+            work = [(st, args[0], [])]
+            outs = []
+            while work:
+                s0, it0, acc = work.pop()
+                for (s1, it1, item) in self.iter_pull(s0, it0, bb, t):
+                    if item is None:
+                        root, path = self.resolve(s1, t["dest"])
+                        self.write(s1, root, path, mk("vec", (), tuple(acc)))
+                        outs.append((s1, t["target"]))
+                    else:
+                        work.append((s1, it1, acc + [item]))
+            return outs
+        except _NoIter:
+            # restore and fall back to the opaque model
+            for k in _State.__slots__:
+                setattr(st, k, getattr(snap, k))
+            return None
 
     def any_as_contains(self, it, clo):
         """contains(list, y) for iter(list).any(closure) when the closure is `|x| x == y` with y captured"""
@@ -951,6 +1095,14 @@ class _Run:
                 m_ = self.any_as_contains(args[0], args[1])
                 if m_ is not None:
                     return m_
+            if a0 is not None and tag(a0) in ("array", "vec") and (name == "std::iter::IntoIterator::into_iter" or (nm == "iter" and name.endswith("<impl [T]>::iter"))):
+                # an iterator over a list whose elements are all known: stepped concretely (iter_call)
+                return mk("iterlit", (0,), tuple(self.deep_deref(st, x) for x in kids(a0)))
+            if a0 is not None and tag(a0) in ITERS:
+                if name == "std::iter::IntoIterator::into_iter":
+                    return a0
+                if name in ("std::iter::Iterator::filter", "std::iter::Iterator::map") and len(args) == 2 and self.closure_target(args[1]) is not None:
+                    return mk("iteradapt", (nm,), (a0, args[1]))
             if name in PURE_LIB:
                 return sym.op(PURE_LIB[name], *args)
             if name == "std::boxed::Box::new_uninit":
